@@ -130,11 +130,17 @@ pub fn catch<T, F: FnOnce() -> T>(f: F) -> Res<T> {
 
 // ---------------------------------------------------------------- Coq terms
 
+// numbers as Coq terms of type N: large ones as `(W hi lo)` (see coq/Check/Common.v), which Coq elaborates
+// ten times faster than a 20-digit numeral
 pub fn n(x: u64) -> String {
-    format!("{}", x)
+    if x >> 32 == 0 {
+        format!("{}", x)
+    } else {
+        format!("(W {} {})", x >> 32, x & 0xFFFF_FFFF)
+    }
 }
 pub fn nu(x: usize) -> String {
-    format!("{}", x)
+    n(x as u64)
 }
 pub fn b(x: bool) -> String {
     (if x { "true" } else { "false" }).to_string()
@@ -145,7 +151,7 @@ pub fn nlist(xs: &[u64]) -> String {
         if i > 0 {
             s.push_str("; ");
         }
-        let _ = write!(s, "{}", x);
+        s.push_str(&n(*x));
     }
     s.push(']');
     s
@@ -180,7 +186,7 @@ pub fn plist(xs: &[(usize, usize)]) -> String {
         if i > 0 {
             s.push_str("; ");
         }
-        let _ = write!(s, "({}, {})", a, b);
+        let _ = write!(s, "({}, {})", nu(*a), nu(*b));
     }
     s.push(']');
     s
